@@ -17,14 +17,15 @@ rows = []
 for rf in sorted((root / "results").glob("*.json")):
     r = json.loads(rf.read_text())
     name = rf.stem  # C05-change2
-    pid, ch = name.split("-")
+    pid, ch = name.split("-", 1)
+    sid = f"{pid}-{ch[-1]}" if ch.startswith("change") else f"{pid}-r2-{ch[-1]}"
     src = root / pid / "_seed" / ch
     if not src.exists():
         continue
     suite_ok = bool(r.get("suite")) and r["suite"]["exit"] == 0 and any("487 passed" in x for x in r["suite"].get("summary", []))
     demo_ok = (r.get("demo_clean") or {}).get("exit") == 0 and (r.get("demo_patched") or {}).get("exit") not in (0, None)
     confirmed = suite_ok and demo_ok and "error" not in r
-    d = dest / f"{pid}-{ch[-1]}"
+    d = dest / sid
     if not confirmed:
         rows.append((pid, ch, "NOT CONFIRMED", r.get("error", ""), [], []))
         continue
@@ -42,7 +43,8 @@ for rf in sorted((root / "results").glob("*.json")):
         if line.startswith("+++ b/"):
             files.append(line[6:])
     meta = {
-        "id": f"{pid}-{ch[-1]}",
+        "id": sid,
+        "round": 1 if ch.startswith("change") else 2,
         "breaks_property": pid,
         "files_changed": files,
         "needs_to_manifest": needs or "see notes.md",
@@ -64,11 +66,12 @@ for rf in sorted((root / "results").glob("*.json")):
 print("| seed | target | files | caught by | cannot analyse |")
 print("|------|--------|-------|-----------|----------------|")
 for pid, ch, st, needs, fired, errs in rows:
-    d = dest / f"{pid}-{ch[-1]}"
+    sid = f"{pid}-{ch[-1]}" if ch.startswith("change") else f"{pid}-r2-{ch[-1]}"
+    d = dest / sid
     files = ""
     if (d / "meta.json").exists():
         files = ", ".join(Path(f).name for f in json.loads((d / "meta.json").read_text())["files_changed"])
     own = "**" + pid + "**" if pid in fired else ""
     others = ", ".join(x for x in fired if x != pid)
     caught = ", ".join(x for x in (own, others) if x) or ("— (missed)" if st == "confirmed" else st)
-    print(f"| {pid}-{ch[-1]} | {pid} | {files} | {caught} | {', '.join(errs) if len(errs) < 8 else str(len(errs)) + ' checks'} |")
+    print(f"| {sid} | {pid} | {files} | {caught} | {', '.join(errs) if len(errs) < 8 else str(len(errs)) + ' checks'} |")
